@@ -212,7 +212,7 @@ def shrink(ctx, req, still_fails, budget=40):
 
 
 def method_check(ctx, col, gens, n_quick, n_thorough, rule, agree_col='agree', agree_scope=None,
-                 finding_facts=None, code2_finding=None, excuse=None):
+                 finding_facts=None, code2_finding=None, excuse=None, search_gens=None):
     """gens: list of (weight, generator(rnd) -> request). col: checker column name.
     agree_col: which correspondence column ties the model to the code for this property."""
     pid = ctx.pid
@@ -260,6 +260,20 @@ def method_check(ctx, col, gens, n_quick, n_thorough, rule, agree_col='agree', a
                 ctx.count('correspondence/excused')
                 continue
             broken.append((req, res, v))
+    if broken and not any(vv[2] for vv in ctx.violations) and not ctx.replay:
+        # the correspondence broke but every observed output satisfies the checker: search for a failing input
+        sg = search_gens or gens
+        sws = [g[0] for g in sg]
+        extra = [rnd.choices(sg, sws)[0][1](rnd) for _ in range(n_cases(ctx, 1500, 12000))]
+        r2, v2, _ = e2e.run_all(ctx.pipe, extra, pid + 'q')
+        ctx.notes.append('search phase: %d further cases' % len(extra))
+        for req, res, v in zip(extra, r2, v2):
+            ctx.evaluations += 1
+            if len(v) > ci and v[ci] == 1:
+                ctx.violation('checker %s_ok rejects what the implementation returned (found by the search phase)' % col,
+                              {'request': req, 'response': res.get('resp') or res.get('err'), 'final_state': res.get('evalInput'),
+                               'checker': 'Check/%s.v' % col[:3]}, {'method': req.get('preferenceFunction')})
+                break
     if broken and not any(vv[2] for vv in ctx.violations):
         req, res, v = broken[0]
         model = core.eval_term(pid + 'm', 'decide %s %s' % (e2e.env_for(ctx.pipe, req), emit.crequest(req)))
@@ -288,9 +302,11 @@ ALL_GENS = [(1, gen_method(m)) for m in gen.METHODS]
 @check('C01')
 def c01(ctx):
     return method_check(
-        ctx, 'C01', ALL_GENS + [(2, gen_method('majorityHeuristic'))], 350, 6000,
+        ctx, 'C01', ALL_GENS + [(2, gen_method('majorityHeuristic')), (4, gen_biased()),
+                                (2, lambda rnd: gen.biased_request(rnd, method=rnd.choice(gen.HEURISTICS), prob_mix=False))], 350, 6000,
         'random valid requests over the seven methods (majority over-weighted: tie groups under every draw policy), currentChoice '
-        'absent / considered / known-only, shuffled orders; distinct = (method, sizes, currentChoice position, draw policy, outcome shape); '
+        'absent / considered / known-only, shuffled orders; half of the requests carry bias sequences of length 1-4 over the six biases; '
+        'distinct = (method, sizes, currentChoice position, bias sequence, draw policy, outcome shape); '
         'non-trivial = accepted with at least two entries',
         agree_col='C01struct', excuse=not_tied_aspect)
 
@@ -298,19 +314,63 @@ def c01(ctx):
 @check('C03')
 def c03(ctx):
     return method_check(
-        ctx, 'C03', [(1, gen_method(m)) for m in gen.UTILITY], 300, 6000,
+        ctx, 'C03', [(1, gen_method(m)) for m in gen.UTILITY]
+        + [(1, (lambda mm: (lambda rnd: gen.biased_request(rnd, method=mm, prob_mix=False)))(m)) for m in gen.UTILITY], 300, 6000,
         'random weightedSum / owa / choquetIntegral requests: weights of mixed magnitude, cost criteria, equal weights, non-additive '
-        'capacities with scrambled keys, values with near-ties at 0.9e-5 / 1.1e-5; distinct = request shape x outcome shape',
+        'capacities with scrambled keys, values with near-ties at 0.9e-5 / 1.1e-5; half of the requests carry bias sequences of length 1-4 '
+        '(the value must be the aggregate of the post-bias values under the post-bias parameters, both dumped from the running code); '
+        'distinct = request shape x outcome shape',
         agree_col='C03values',
         code2_finding='weightedSum reports the plain sum of the (signed) values, the weights are not applied')
 
 
+def c05_matrices(ctx):
+    """raw credibility matrices over {0, 1/4, 1/2, 3/4, 1} (and some real ones) through the exported RankAscending / RankDescending"""
+    rnd = ctx.rnd
+    if not ctx.comp_ok:
+        ctx.notes.append('component overlay for ELECTRE no longer compiles; matrix-level correspondence skipped')
+        return
+    terms, keep = [], []
+    for _ in range(n_cases(ctx, 1200, 30000)):
+        n = rnd.choice([2, 3, 3, 4, 4, 5, 6])
+        grid = rnd.random() < 0.7
+        m = [[(rnd.randint(0, 4) / 4.0 if grid else round(rnd.random(), 3)) if i != j else 1.0 for j in range(n)] for i in range(n)]
+        a, b = rnd.choice([(-0.15, 0.3), (-0.15, 0.3), (0.0, 0.125), (-0.25, 0.5), (0.0, 0.0), (-0.1, 0.1), (-0.5, 0.5)])
+        res = ctx.pipe.call({'op': 'electre_rank', 'args': {'matrix': m, 'a': a, 'b': b}})
+        if not res.get('ok'):
+            ctx.violation('harness: electre_rank op unavailable', {'broken': 'component overlay', 'answer': res}, found_input=False)
+            return
+        r = res['result']
+        obs = 'None' if not r.get('ok') else '(Some (%s, %s))' % (emit.clist(emit.cZ(x) for x in r['asc']), emit.clist(emit.cZ(x) for x in r['desc']))
+        terms.append('(mkRC %s %s %s %s)' % (emit.clist(emit.clist(core.fhex(x) for x in row) for row in m), core.fhex(a), core.fhex(b), obs))
+        keep.append((m, a, b, r))
+        ctx.seen(('matrix', n, (a, b), tuple(r.get('asc') or []), tuple(r.get('desc') or [])), trivial=(n < 3))
+        ctx.count('matrix/n=%d' % n)
+    verd, logs = core.run_cases('C05m', 'judge_rank', terms, shard=300)
+    bad = [(k, v) for k, v in zip(keep, verd) if v and v[0] != 0]
+    for (m, a, b, r), v in zip(keep, verd):
+        if v and len(v) > 1 and v[1] != 0:
+            ctx.violation('class numbers of a distillation are not consecutive integers from 1', {'matrix': m, 'distillation': [a, b], 'result': r}, {'component': 'rank'})
+    if bad:
+        (m, a, b, r), v = bad[0]
+        model = core.eval_term('C05mm', '(@rank_ascending NumF %s (mkLF %s %s), @rank_descending NumF %s (mkLF %s %s))' % (
+            (emit.clist(emit.clist(core.fhex(0.0 if i == j else x) for j, x in enumerate(row)) for i, row in enumerate(m)), core.fhex(a), core.fhex(b)) * 2),
+            'From RDM Require Import Model.Electre.\n')
+        ctx.violation('the distillations of a credibility matrix differ from the method definition (executable specification) on %d of %d matrices'
+                      % (len(bad), len(keep)), {'matrix': m, 'distillation_function': {'a': a, 'b': b}, 'code': r, 'specification': model[:1500],
+                                                 'checker': 'Model/Electre.v rank_ascending / rank_descending (theorems in Properties/C05.v)'},
+                      {'component': 'rank'})
+
+
 @check('C05')
 def c05(ctx):
+    ctx.before_finish = c05_matrices
     return method_check(
         ctx, 'C05', [(1, gen_method('electreIII'))], 300, 6000,
         'random electreIII requests: gain and cost criteria, every presence pattern of q<p<v, ties on criteria and identical '
-        'alternatives, default and custom distillation functions; distinct = request shape x outcome shape',
+        'alternatives, default and custom distillation functions; plus raw credibility matrices over {0, 1/4, .., 1} of size 2-6 through the '
+        'exported RankAscending / RankDescending (ex-aequo best sets needing inner distillations, classes removed from the middle); '
+        'distinct = request shape x outcome shape, matrix size x function x result',
         agree_col='agree')
 
 
@@ -390,7 +450,8 @@ STAGE_TEXT = {1: 'model rejects what the code accepts', 2: 'the code fails where
               12: 'model out of fuel', 99: 'case file did not evaluate'}
 
 
-def stage_check(ctx, col, names, gens, n_quick, n_thorough, rule, extra=None, agree_names=None):
+def stage_check(ctx, col, names, gens, n_quick, n_thorough, rule, extra=None, agree_names=None, search_gens=None):
+    extra_fn = extra
     """col: checker column of judge_stage deciding the property for stages whose bias is in `names`
     (None = all stages); the stage correspondence of those stages ties the model to the code."""
     pid = ctx.pid
@@ -430,6 +491,26 @@ def stage_check(ctx, col, names, gens, n_quick, n_thorough, rule, extra=None, ag
             extra(ctx, req, res, info, v, facts)
         if v[0] != 0 and (agree_names is None or name in agree_names):
             broken.append((req, info, v))
+    if broken and not any(vv[2] for vv in ctx.violations) and not ctx.replay and search_gens:
+        # correspondence broken, every checker satisfied so far: search for a failing input with aimed sequences
+        ws2 = [g[0] for g in search_gens]
+        extra = [rnd.choices(search_gens, ws2)[0][1](rnd) for _ in range(n_cases(ctx, 500, 5000))]
+        i2, v2, r2, _ = collect_stages(ctx, extra)
+        ctx.notes.append('search phase: %d further requests, %d stages' % (len(extra), len(i2)))
+        for (req, res, info), v in zip(i2, v2):
+            name = info['bias'].get('name')
+            if (names is not None and name not in names) or len(v) < len(e2e.SCOLS):
+                continue
+            ctx.evaluations += 1
+            facts = {'method': req.get('preferenceFunction'), 'bias': name}
+            if ci is not None and v[ci] != 0:
+                ctx.violation('checker %s_ok rejects what the bias %s produced (found by the search phase)' % (col, name),
+                              {'request': req, 'bias': info['bias'], 'before': info['stage'].get('curBefore'),
+                               'after': info['stage'].get('curAfter'), 'report': info['stage'].get('props')}, facts)
+            if extra_fn:
+                extra_fn(ctx, req, res, info, v, facts)
+            if any(vv[2] for vv in ctx.violations):
+                break
     if broken and not any(vv[2] for vv in ctx.violations):
         req, info, v = broken[0]
         ctx.violation('stage correspondence model/code broken on %d stages (%s: %s); every produced state still satisfies the checker'
@@ -514,7 +595,27 @@ def c07_extra(ctx, req, res, info, v, facts):
 @check('C07')
 def c07(ctx):
     gens = [(3, gen_biased()), (1, gen_biased(length=1)), (1, gen_biased(length=2))]
-    infos, verd, reqs, ress = stage_check(ctx, None, None, gens, 400, 8000, '', extra=c07_extra)
+    def adders_then(rnd):
+        """a criterion-adding or -removing bias followed by biases that must cope with the changed criteria"""
+        first = rnd.choice(['anchoring', 'criteriaConcealment', 'criteriaMixing', 'criteriaOmission'])
+        req = gen.biased_request(rnd, names=[first] + [rnd.choice(gen.BIASES) for _ in range(rnd.choice([1, 1, 2]))], prob_mix=False)
+        if first == 'anchoring':
+            ap = req['biases'][0]['props']['applier']
+            ap['function'] = 'newCriterion'
+            ap['params'].setdefault('randomSeed', 7)
+            ap['params'].pop('applyOnNotConsidered', None)
+        for b in req['biases'][1:]:
+            if b['name'] in ('preferenceReversal', 'criteriaOmission') and rnd.random() < 0.6:
+                b['props']['ratio'] = rnd.choice([1.0, 0.75])
+                b['props'].pop('max', None)
+                if b['name'] == 'criteriaOmission':
+                    b['props']['max'] = max(1, len(req['criteria']) - 1)
+        if rnd.random() < 0.7:
+            for c in req['criteria']:
+                c.pop('valuesRange', None)
+        return req
+    infos, verd, reqs, ress = stage_check(ctx, None, None, gens + [(1, adders_then)], 400, 8000, '', extra=c07_extra,
+                                          search_gens=[(1, adders_then)])
     # a valid request with valid biases must end in a ranking
     for req, res in zip(reqs, ress):
         if not res.get('ok') and res.get('kind') == 'panic':
@@ -542,6 +643,25 @@ def c06(ctx):
             sg = -1 if c['type'] == 'cost' else 1
             delta = rnd.choice([0, 0, 0.25, 0.5, 1.0, 2.0])
             alts[b]['criteria'][c['id']] = alts[a]['criteria'][c['id']] - sg * delta
+        return req
+
+    def veto_heavy(rnd):
+        """dominated pairs among widely spread values with all three thresholds present on every criterion (several discordant criteria per pair)"""
+        req = gen.electre_request(rnd, n_alts=rnd.choice([3, 3, 4]), n_crits=rnd.choice([2, 3, 3, 4]))
+        for c in req['criteria']:
+            c['type'] = 'gain' if rnd.random() < 0.7 else 'cost'
+            c.pop('valuesRange', None)
+            req['methodParameters']['electreCriteria'][c['id']] = {'k': rnd.choice([1.0, 2.0, 3.0]), 'q': {'a': 0, 'b': 1.0}, 'p': {'a': 0, 'b': 2.0},
+                                                                   'v': {'a': 0, 'b': rnd.choice([4.0, 6.0, 3.0])}}
+        alts = req['knownAlternatives']
+        for a in alts:
+            for c in req['criteria']:
+                a['criteria'][c['id']] = float(rnd.randint(0, 9))
+        i, j = rnd.sample(range(len(alts)), 2)
+        for c in req['criteria']:
+            sg = -1 if c['type'] == 'cost' else 1
+            alts[j]['criteria'][c['id']] = alts[i]['criteria'][c['id']] - sg * rnd.choice([0, 1, 1, 2])
+        req['methodParameters'].pop('electreDistillation', None)
         return req
 
     def meta(ctx2):
@@ -572,11 +692,12 @@ def c06(ctx):
                                    {'request': req, 'scaled': sr, 'result': base.get('resp'), 'scaled_result': r3.get('resp') or r3.get('err')},
                                    {'method': 'electreIII'})
     ctx.before_finish = meta
-    return method_check(ctx, 'C06', [(2, dominated), (1, gen_method('electreIII'))], 250, 5000,
+    return method_check(ctx, 'C06', [(2, dominated), (2, veto_heavy), (1, gen_method('electreIII'))], 300, 6000,
                         'electreIII requests with a planted dominated/dominating pair (ties on some criteria) inside 1-4 further '
                         'alternatives, plus random requests; every dominating and identical pair of each response is checked; '
-                        'metamorphic groups: two listing-order permutations and weights x 2^m (m = -3, 1, 10) per request',
-                        agree_col='agree')
+                        'metamorphic groups: two listing-order permutations and weights x 2^m (m = -3, 1, 10) per request; when the correspondence '
+                        'breaks, a search phase of 1500+ veto-heavy cases looks for a pair violating dominance',
+                        agree_col='agree', search_gens=[(1, veto_heavy)])
 
 
 @check('C08')
@@ -854,7 +975,9 @@ def c02(ctx):
     map_heavy = lambda r: gen.biased_request(r, method=r.choice(['choquetIntegral', 'owa', 'weightedSum', 'electreIII']),
                                              names=[r.choice(['anchoring', 'criteriaOmission', 'criteriaConcealment', 'criteriaMixing'])], prob_mix=False)
     reqs = [ctx.replay['request']] if ctx.replay and 'request' in ctx.replay else \
-        [rnd.choice([gen.any_request, gen.biased_request, map_heavy])(rnd) for _ in range(n)]
+        [rnd.choice([gen.any_request, gen.biased_request, map_heavy, gen.choquet_chain_request,
+                     lambda r: gen.add_biases(r, gen.choquet_chain_request(r), names=[r.choice(['criteriaOmission', 'criteriaConcealment'])],
+                                              prob_mix=False)])(rnd) for _ in range(n)]
     # some invalid ones: the verdict must repeat as well
     for r in reqs[::9]:
         if not ctx.replay:
@@ -873,7 +996,7 @@ def c02(ctx):
         order = list(range(len(reqs)))
         for k, srv in enumerate(servers):
             rnd.shuffle(order)
-            for i in order:
+            for i in order + [j for j in order if reqs[j].get('preferenceFunction') == 'choquetIntegral'] * 3:
                 st, out = srv.post(bodies[i])
                 ctx.count('repeat/%s' % ('same-process' if k == 0 else 'fresh-process'))
                 st0, out0 = first[i]
@@ -896,7 +1019,8 @@ def c02(ctx):
     return ctx.finish(
         'each request is sent to the real service once, then again in the same process after all the others in another order, and to fresh '
         'processes (Go randomises map iteration per range statement and per process); accepted answers must be byte-identical, verdicts equal; '
-        'requests: all methods and bias combinations, map-heavy ones over-weighted, every ninth made invalid; distinct = request shape x outcome',
+        'requests: all methods and bias combinations, map-heavy ones over-weighted (Choquet alternatives holding chains of near-ties are '
+        'repeated four times per process), every ninth made invalid; distinct = request shape x outcome',
         './check C02')
 
 
@@ -928,16 +1052,30 @@ def c09(ctx):
             ctx.violation('MakeDecision modified the request value it was handed', {'request': req}, {'method': req.get('preferenceFunction')})
     # histories: the same Go values are reused across calls; every earlier result must stay intact; the answer must not depend on history
     rnd = ctx.rnd
-    nh = n_cases(ctx, 40, 800)
+    nh = n_cases(ctx, 60, 1200)
     for _ in range(nh):
-        pool = [rnd.choice([allc, cur_in, gen.any_request])(rnd) for _ in range(rnd.randint(1, 3))]
+        if rnd.random() < 0.6:
+            # requests of one method with different (optional) parameters: what one call sets must not leak into the next
+            m = rnd.choice(gen.METHODS)
+            pool = [gen.any_request(rnd, m) for _ in range(rnd.randint(2, 3))]
+            if m == 'electreIII':
+                pool[0]['methodParameters'].pop('electreDistillation', None)
+                pool[1]['methodParameters']['electreDistillation'] = rnd.choice([{'a': 0, 'b': 0.05}, {'a': -0.25, 'b': 0.5}, {'a': 0, 'b': 0.125}])
+            pool = [gen.add_biases(rnd, r, prob_mix=False) if rnd.random() < 0.3 else r for r in pool]
+        else:
+            pool = [rnd.choice([allc, cur_in, gen.any_request])(rnd) for _ in range(rnd.randint(1, 3))]
         seq = [rnd.choice(pool) for _ in range(rnd.randint(2, 6))]
         alone = {}
         for r in pool:
+            # the answer to the request alone: a process that has served nothing else
             k = json.dumps(r, sort_keys=True)
-            alone[k] = ctx.pipe.call({'op': 'decide', 'req': r})
+            fp = core.Pipe(ctx.binary)
+            alone[k] = fp.call({'op': 'decide', 'req': r})
+            fp.close()
         for mode in ('shared', 'fresh'):
-            out = ctx.pipe.call({'op': 'hist', 'reqs': seq, 'mode': mode})
+            hp = core.Pipe(ctx.binary)
+            out = hp.call({'op': 'hist', 'reqs': seq, 'mode': mode})
+            hp.close()
             ctx.evaluations += 1
             ctx.signatures.add(('hist', mode, len(seq), len(pool), tuple(x.get('preferenceFunction') for x in seq)))
             ctx.count('history/' + mode)
@@ -977,21 +1115,28 @@ def c10(ctx):
         ctx.notes.append('write summary: ' + g.stdout.strip())
     ctx.check_proofs()
     rnd = ctx.rnd
-    pipes = [ctx.pipe]
+    bins = [ctx.binary]
     race_pipe = None
-    if True:
-        try:
-            rb, _ = core.build_go(race=True)
-            race_pipe = core.Pipe(rb, mem_kb=64 * 1024 * 1024)
-            pipes.append(race_pipe)
-        except core.BuildError as e:
-            ctx.notes.append('race build unavailable: ' + str(e)[-300:])
+    try:
+        rb, _ = core.build_go(race=True)
+        bins.append(rb)
+    except core.BuildError as e:
+        ctx.notes.append('race build unavailable: ' + str(e)[-300:])
     try:
         nb = n_cases(ctx, 40, 500)
         for bi in range(nb):
             k = rnd.choice([2, 8, 8, 32])
             kind = rnd.choice(['identical', 'different', 'mixed-invalid'])
-            base = [rnd.choice([gen.any_request, gen.biased_request])(rnd) for _ in range(1 if kind == 'identical' else rnd.randint(2, 5))]
+            if kind != 'identical' and rnd.random() < 0.6:
+                # requests of one method that differ in (optional) parameters: what one request sets must not reach another
+                m = rnd.choice(gen.METHODS)
+                base = [gen.any_request(rnd, m) for _ in range(rnd.randint(2, 4))]
+                if m == 'electreIII':
+                    base[0]['methodParameters'].pop('electreDistillation', None)
+                    base[1]['methodParameters']['electreDistillation'] = rnd.choice([{'a': 0, 'b': 0.05}, {'a': -0.25, 'b': 0.5}, {'a': 0, 'b': 0.125}])
+                base = [gen.add_biases(rnd, r, prob_mix=False) if rnd.random() < 0.3 else r for r in base]
+            else:
+                base = [rnd.choice([gen.any_request, gen.biased_request])(rnd) for _ in range(1 if kind == 'identical' else rnd.randint(2, 5))]
             if kind == 'mixed-invalid':
                 bad = json.loads(json.dumps(base[0]))
                 bad['choseToMake'] = bad['choseToMake'] + ['no-such-alternative']
@@ -999,9 +1144,14 @@ def c10(ctx):
             batch = [rnd.choice(base) for _ in range(k)]
             seq = {}
             for r in base:
-                seq[json.dumps(r, sort_keys=True)] = ctx.pipe.call({'op': 'decide', 'req': r})
-            for pi, pp in enumerate(pipes):
+                # one at a time, each in a process that has served nothing else
+                fp = core.Pipe(ctx.binary)
+                seq[json.dumps(r, sort_keys=True)] = fp.call({'op': 'decide', 'req': r})
+                fp.close()
+            for pi, binp in enumerate(bins):
+                pp = core.Pipe(binp, mem_kb=64 * 1024 * 1024)
                 out = pp.call({'op': 'conc', 'reqs': batch}, timeout=120)
+                pp.close()
                 ctx.evaluations += 1
                 ctx.signatures.add(('conc', k, kind, tuple(sorted(set(x.get('preferenceFunction') for x in batch))), pi))
                 ctx.count('batch/%s/k=%d%s' % (kind, k, '/race' if pi else ''))
